@@ -27,7 +27,52 @@ def parseSpec (s : String) : Option PropSpec :=
   else if s.startsWith "o" then (s.drop 1).toString.toNat?.map PropSpec.oracle
   else none
 
-def parseDesc (flags ents tags props : String) : Option RuleDesc := do
+/-- what the harness recorded from the external encoding validator -/
+structure EncOracle where
+  utf8 : Bool
+  mask : List Bool
+  valid : List (Bytes × Bool)
+  pre : List (Bytes × Bytes)
+
+def parseMask (s : String) : Option (List Bool) :=
+  s.toList.mapM hexDigit |>.map fun ds => ds.flatMap fun d => [d / 8 % 2 == 1, d / 4 % 2 == 1, d / 2 % 2 == 1, d % 2 == 1]
+
+def parseEnc (s : String) : Option (Option EncOracle) :=
+  if s == "-" then some none
+  else
+    let items := s.splitOn ","
+    items.foldlM (fun (acc : Option EncOracle) (it : String) =>
+      match acc, it.splitOn ":" with
+      | none, ["U"] => some (some ⟨true, [], [], []⟩)
+      | none, ["M", m] => (parseMask m).map fun mk => some ⟨false, mk, [], []⟩
+      | some o, ["V", h, v] => (parseHex h).map fun b => some { o with valid := o.valid ++ [(b, v == "1")] }
+      | some o, ["P", h, out] => do
+        let b ← parseHex h
+        let ob ← parseHex out
+        some (some { o with pre := o.pre ++ [(b, ob)] })
+      | _, _ => none) none
+
+/-- `none` component = a verdict that is needed but was not recorded -/
+def encOf (o : EncOracle) (repl : UInt8) (dflt : Bool) : Enc :=
+  if o.utf8 then
+    { valid := fun x => match o.valid.find? (·.1 == x) with | some p => p.2 | none => dflt
+      prefilter := fun x => match o.pre.find? (·.1 == x) with | some p => p.2 | none => if dflt then x else [] }
+  else byteEnc (fun c => o.mask.getD c.toNat false) repl
+
+/-- the single-byte model must agree with every recorded verdict -/
+def encConsistent (o : EncOracle) (repl : UInt8) : Bool :=
+  o.utf8 ||
+    (o.valid.all (fun p => (byteEnc (fun c => o.mask.getD c.toNat false) repl).valid p.1 == p.2) &&
+     o.pre.all (fun p => (byteEnc (fun c => o.mask.getD c.toNat false) repl).prefilter p.1 == p.2))
+
+def parseFlags (flags : String) : Option (String × Option UInt8) :=
+  match flags.splitOn ":" with
+  | [f] => some (f, none)
+  | [f, _, rp] => rp.toNat?.map fun n => (f, some (UInt8.ofNat n))
+  | _ => none
+
+def parseDesc (flags0 ents tags props : String) : Option RuleDesc := do
+  let flags := (flags0.splitOn ":").headD ""
   let fl := flags.toList
   if fl.length ≠ 3 then none
   let b (c : Char) : Bool := c == '1'
@@ -62,14 +107,18 @@ def isMarkupTy : Ty → Bool
   | .plain => false
   | _ => true
 
-def runCase (d : RuleDesc) (tbl : List (Nat × Bytes × Bool)) (dflt : Bool) (x : Bytes) : String :=
+def runCase (d : RuleDesc) (tbl : List (Nat × Bytes × Bool)) (E : Bool → Option Enc) (dflt : Bool) (x : Bytes) : String :=
   let r := mkRules d (oracleOf tbl dflt)
-  let frm := filter r .remove x
-  let fesc := filter r .escape x
-  s!"v={boolStr (validate r x)} rm={optOut (validateAndFilter r .remove x)} esc={optOut (validateAndFilter r .escape x)} frm={toHex frm} fesc={toHex fesc} vrm={boolStr (validate r frm)} vesc={boolStr (validate r fesc)}"
+  let e := E dflt
+  let frm := filterE e r .remove x
+  let fesc := filterE e r .escape x
+  s!"v={boolStr (validateE e r x)} rm={optOut (validateAndFilterE e r .remove x)} esc={optOut (validateAndFilterE e r .escape x)} frm={toHex frm} fesc={toHex fesc} vrm={boolStr (validateE e r frm)} vesc={boolStr (validateE e r fesc)}"
 
-def stats (d : RuleDesc) (tbl : List (Nat × Bytes × Bool)) (x : Bytes) : String :=
+def stats (d : RuleDesc) (tbl : List (Nat × Bytes × Bool)) (e : Option Enc) (x0 : Bytes) : String :=
   let r := mkRules d (oracleOf tbl false)
+  let x := match e with
+    | some en => if en.valid x0 then x0 else en.prefilter x0
+    | none => x0
   let a := analyse r x
   let n := a.1.length
   let mk := (a.1.filter fun e => isMarkupTy e.ty).length
@@ -103,13 +152,17 @@ def judge (d : RuleDesc) (tbl : List (Nat × Bytes × Bool)) (x : Bytes) : Strin
 def step (_ : Unit) (line : String) : Unit × String :=
   let r : String :=
     match words line with
-    | ["C", fl, es, ts, ps, _, x, tb] =>
-      match parseDesc fl es ts ps, parseHex x, parseTable tb with
-      | some d, some x, some tbl =>
-        let a := runCase d tbl false x
-        let b := runCase d tbl true x
-        if a == b then a ++ " " ++ stats d tbl x else "oracle-miss"
-      | _, _, _ => "bad-op"
+    | ["C", fl, es, ts, ps, _, x, tb, eb] =>
+      match parseDesc fl es ts ps, parseHex x, parseTable tb, parseEnc eb, parseFlags fl with
+      | some d, some x, some tbl, some eo, some (_, repl) =>
+        let rp := repl.getD 0
+        let E : Bool → Option Enc := fun dflt => eo.map fun o => encOf o rp dflt
+        if !(eo.map (encConsistent · rp)).getD true then "enc-model-mismatch"
+        else
+          let a := runCase d tbl E false x
+          let b := runCase d tbl E true x
+          if a == b then a ++ " " ++ stats d tbl (E false) x else "oracle-miss"
+      | _, _, _, _, _ => "bad-op"
     | ["J", fl, es, ts, ps, _, x, tb] =>
       match parseDesc fl es ts ps, parseHex x, parseTable tb with
       | some d, some x, some tbl => judge d tbl x
